@@ -258,6 +258,8 @@ func (fr *Frame) libModel(key string, fn *ssa.Function, c *ssa.CallCommon, args 
 	case "errors.New", "fmt.Errorf":
 		r := vc.fresh("err", SInt)
 		vc.assert(Lt(I(0), r))
+		// a newly created error value is none of the pre-existing sentinel errors (codes 900000..)
+		vc.assert(Or(Lt(r, I(500000)), Lt(I(1000000), r)))
 		if key == "fmt.Errorf" {
 			// %w wrapping: errIs facts
 			fr.wrapFacts(r, c, args, st)
